@@ -94,6 +94,12 @@ M = [
     ("c13-simple-print-parens", "C13", "regexp.py", "        if n1:\n            x1 = '({})'.format(x1)\n        if n2:\n            x2 = '({})'.format(x2)\n        return '{}{}'.format(x1, x2)", "        if n1:\n            x1 = '({})'.format(x1)\n        return '{}{}'.format(x1, x2)"),
     ("c13-cyk-print-order", "C13", "cfg_algorithms.py", "    return '\\n'.join(reversed(lines))", "    return '\\n'.join(lines)"),
     ("c13-reverse-eps-name", "C13", "dfa_algorithms.py", "def dfa_reverse(D: DFA) -> NFA:\n    epsilon = Symbol('ε')", "def dfa_reverse(D: DFA) -> NFA:\n    epsilon = Symbol('')"),
+    ("c19-chomsky-no-deepcopy", "C19", "cfg_algorithms.py", "def cfg_to_chomsky(G: CFG, verbose: bool = False) -> CFG:\n    G = copy.deepcopy(G)", "def cfg_to_chomsky(G: CFG, verbose: bool = False) -> CFG:\n    G = copy.copy(G)"),
+    ("c19-remove-unreachable-inplace", "C19", "dfa_algorithms.py", "    Q1 = dfa_reachable_states(D, q0)\n    F1 = F & Q1", "    Q1 = dfa_reachable_states(D, q0)\n    F &= Q1\n    F1 = F"),
+    ("c19-simplify-mutates", "C19", "regexp_algorithms.py", "        elif isinstance(operand, Iteration):\n            result = operand\n        else:\n            result = Iteration(operand)", "        elif isinstance(operand, Iteration):\n            result = operand\n        else:\n            r.operand = operand\n            result = r"),
+    ("c19-hopcroft-logging", "C19", "dfa_algorithms.py", "            log(f'split(W, a, P) = {print_Q(P1)}, {print_Q(P2)}')", "            log(f'split(W, a, P) = {print_Q(P1)}, {print_Q(P2)}, {W_cal.clear() if log.__globals__['GambaTools'].enable_logging else None}')"),
+    ("c19-complement-shares-nothing", "C19", "dfa_algorithms.py", "    return DFA(Q, Sigma, delta, q0, Q - F)", "    F ^= Q\n    return DFA(Q, Sigma, delta, q0, F)"),
+    ("c19-nfa-to-dfa-order", "C19", "nfa_algorithms.py", "    return not q.isdisjoint(F)\n", "    return not q.isdisjoint(F) and (len(q) < 2 or sorted(q)[0] == next(iter(q)))\n"),
     ("c06-gnfa-overwrite", "C06", "regexp_algorithms.py", "            delta1[q, q1] = regexp.Sum(delta1[q, q1], regexp.Symbol(a))", "            delta1[q, q1] = regexp.Symbol(a)"),
 ]
 
